@@ -74,7 +74,7 @@ fn is_known_merge(a: &T, b: &T) -> bool {
 fn run_case(c: &Case, tier: Tier) -> Chk<Pass> {
     let dg = match build(&c.d) { Ok(d) => d, Err(e) => return discard(format!("diagram-build: {e}")) };
     if dg.orient(0).is_err() { return discard("diagram-invalid") }
-    let cap = tier.pick(14usize, 18usize);
+    let cap = tier.pick(14usize, 16usize);
     if dg.ncross() > cap && !c.only_routes { return discard("size-cap") }
     let l = dg.to_link();
     let threads = [1usize, 4, 16][c.threads as usize % 3];
@@ -162,8 +162,8 @@ impl Prop for C03 {
         v
     }
     fn fixed_parallel(_: Tier) -> usize { 2 }
-    fn cases(tier: Tier) -> u32 { tier.pick(600, 12_000) }
-    fn shards(_: Tier) -> usize { 8 }
+    fn cases(tier: Tier) -> u32 { tier.pick(600, 5_000) }
+    fn shards(tier: Tier) -> usize { tier.pick(8, 16) }
     fn replay_repeats() -> usize { 2 }
     fn finding_key(_case: &Case, msg: &str) -> Option<String> { if msg.starts_with("[F-C03-1]") { Some("F-C03-1".into()) } else { None } }
     fn run(case: &Case, ctx: &Ctx) -> Outcome { to_outcome(run_case(case, ctx.tier)) }
